@@ -28,10 +28,10 @@ type UserSpec struct {
 
 // Step is one plan step: sleep Dt, then Op.
 type Step struct {
-	Pause *PauseSpec `json:"pause,omitempty"` // twin steps: hold one request at a statement instead of on a link
-	Op string        `json:"op"`
-	Dt time.Duration `json:"dt,omitempty"`
-	B  string        `json:"b,omitempty"` // browser / actor
+	Pause *PauseSpec    `json:"pause,omitempty"` // twin steps: hold one request at a statement instead of on a link
+	Op    string        `json:"op"`
+	Dt    time.Duration `json:"dt,omitempty"`
+	B     string        `json:"b,omitempty"` // browser / actor
 
 	// request-shaped ops
 	Method    string      `json:"method,omitempty"`
@@ -47,13 +47,13 @@ type Step struct {
 	Chunked   bool        `json:"chunked,omitempty"`
 	Follow    int         `json:"follow,omitempty"` // >0: navigate with this hop budget
 
-	User   string   `json:"user,omitempty"`
-	Groups []string `json:"groups,omitempty"`
-	Sub    string   `json:"sub,omitempty"` // sub-operation
-	Name   string   `json:"name,omitempty"`
-	Arg    int      `json:"arg,omitempty"`
-	Arg2   int      `json:"arg2,omitempty"`
-	Str    string   `json:"str,omitempty"`
+	User   string        `json:"user,omitempty"`
+	Groups []string      `json:"groups,omitempty"`
+	Sub    string        `json:"sub,omitempty"` // sub-operation
+	Name   string        `json:"name,omitempty"`
+	Arg    int           `json:"arg,omitempty"`
+	Arg2   int           `json:"arg2,omitempty"`
+	Str    string        `json:"str,omitempty"`
 	Dur    time.Duration `json:"dur,omitempty"`
 
 	Endpoint string     `json:"endpoint,omitempty"`
@@ -67,6 +67,8 @@ type Step struct {
 
 	Twin *Step `json:"twin,omitempty"` // second request issued concurrently (C16/C17 world twin)
 
+	BodyGap time.Duration `json:"body_gap,omitempty"` // the client sends the second half of the request body this long after the first (slow upload)
+
 	Tag     string `json:"tag,omitempty"`     // "twin:<k>" / "hostile:<k>" pairing for C20
 	Hostile string `json:"hostile,omitempty"` // the hostile string this step carries
 }
@@ -74,22 +76,22 @@ type Step struct {
 // MintSpec derives a session from a genuine one (or from scratch) and seals it
 // under the proxy secret: the "all session contents a cookie can carry" generator.
 type MintSpec struct {
-	Slug         *string        `json:"slug,omitempty"`
-	Upstream     *string        `json:"upstream,omitempty"`
-	Email        *string        `json:"email,omitempty"`
-	User         *string        `json:"user,omitempty"`
-	Groups       []string       `json:"groups,omitempty"`
-	SetGroups    bool           `json:"set_groups,omitempty"`
-	Access       *string        `json:"access,omitempty"`
-	Refresh      *string        `json:"refresh,omitempty"`
-	LifetimeIn   *time.Duration `json:"lifetime_in,omitempty"` // relative to now
-	RefreshIn    *time.Duration `json:"refresh_in,omitempty"`
-	ValidIn      *time.Duration `json:"valid_in,omitempty"`
-	GraceAgo     *time.Duration `json:"grace_ago,omitempty"` // GracePeriodStart = now - this
-	ForeignKey   bool           `json:"foreign_key,omitempty"`
-	FromScratch  bool           `json:"from_scratch,omitempty"`
-	AuthCipher   bool           `json:"auth_cipher,omitempty"` // seal under the authenticator's cookie secret instead
-	AuthCookie   bool           `json:"auth_cookie,omitempty"` // derive from and replace the authenticator's own session cookie
+	Slug        *string        `json:"slug,omitempty"`
+	Upstream    *string        `json:"upstream,omitempty"`
+	Email       *string        `json:"email,omitempty"`
+	User        *string        `json:"user,omitempty"`
+	Groups      []string       `json:"groups,omitempty"`
+	SetGroups   bool           `json:"set_groups,omitempty"`
+	Access      *string        `json:"access,omitempty"`
+	Refresh     *string        `json:"refresh,omitempty"`
+	LifetimeIn  *time.Duration `json:"lifetime_in,omitempty"` // relative to now
+	RefreshIn   *time.Duration `json:"refresh_in,omitempty"`
+	ValidIn     *time.Duration `json:"valid_in,omitempty"`
+	GraceAgo    *time.Duration `json:"grace_ago,omitempty"` // GracePeriodStart = now - this
+	ForeignKey  bool           `json:"foreign_key,omitempty"`
+	FromScratch bool           `json:"from_scratch,omitempty"`
+	AuthCipher  bool           `json:"auth_cipher,omitempty"` // seal under the authenticator's cookie secret instead
+	AuthCookie  bool           `json:"auth_cookie,omitempty"` // derive from and replace the authenticator's own session cookie
 }
 
 // Violation is one failed assertion.
@@ -124,21 +126,21 @@ func (v Violation) SigString() string {
 
 // Result is what one executed plan reports.
 type Result struct {
-	Seed        uint64         `json:"seed"`
-	Property    string         `json:"property"`
-	Gen         string         `json:"gen,omitempty"`
-	Violations  []Violation    `json:"violations,omitempty"`
-	Cover       map[string]int `json:"cover,omitempty"`  // distinct non-trivial keys: oracle antecedents that were true
-	Probes      map[string]int `json:"probes,omitempty"` // reach probes
-	Faults      map[string]int `json:"faults,omitempty"` // fault kinds that fired
-	SimSeconds  float64        `json:"sim_seconds"`
-	Exchanges   int            `json:"exchanges"`
-	Steps       int            `json:"steps"`
-	TraceHash   string         `json:"trace_hash"`
-	Trace       []string       `json:"trace,omitempty"`
-	HarnessErr  string         `json:"harness_err,omitempty"`
-	FaultFree   bool           `json:"fault_free"`
-	BootFailed  bool           `json:"boot_failed,omitempty"`
+	Seed       uint64         `json:"seed"`
+	Property   string         `json:"property"`
+	Gen        string         `json:"gen,omitempty"`
+	Violations []Violation    `json:"violations,omitempty"`
+	Cover      map[string]int `json:"cover,omitempty"`  // distinct non-trivial keys: oracle antecedents that were true
+	Probes     map[string]int `json:"probes,omitempty"` // reach probes
+	Faults     map[string]int `json:"faults,omitempty"` // fault kinds that fired
+	SimSeconds float64        `json:"sim_seconds"`
+	Exchanges  int            `json:"exchanges"`
+	Steps      int            `json:"steps"`
+	TraceHash  string         `json:"trace_hash"`
+	Trace      []string       `json:"trace,omitempty"`
+	HarnessErr string         `json:"harness_err,omitempty"`
+	FaultFree  bool           `json:"fault_free"`
+	BootFailed bool           `json:"boot_failed,omitempty"`
 
 	mu sync.Mutex // overlapping (twin) requests record concurrently
 }
